@@ -470,6 +470,16 @@ class Reader:
             callee = self.parse_value_ref()
             arguments = self.parse_function_arguments()
             ins = ir.ProcedureCall(callee, arguments)
+        elif self.at_keyword("memcpy"):
+            self.consume_keyword("memcpy")
+            self.consume("(")
+            dst = self.parse_value_ref()
+            self.consume(",")
+            src = self.parse_value_ref()
+            self.consume(",")
+            amount = self.parse_integer()
+            self.consume(")")
+            ins = ir.CopyBlob(dst, src, amount)
         else:
             ins = self.parse_assignment()
             self.define_value(ins)
